@@ -109,7 +109,7 @@ pub fn vec_extend(a: &mut Vec<Identifier>, b: Vec<Identifier>)
 //@end
 
 // ---------- code under contract
-//~not_decided statement-level walk find_in_statement, find_procs, find_types (flat_map/filter_map), conversion to TextEdits, prepare-rename (async handlers), binding/scoping (LookupTable/HashMap): "occurrences of one binding" is decided inside expressions only
+//~not_decided the declaration part of find_vars (filter_map/find over parameters and local declarations), find_procs, find_types, conversion to TextEdits, prepare-rename (async handlers), binding/scoping (LookupTable/HashMap): "occurrences of one binding" is decided for the statements of one procedure, not across declarations
 //@extract lsp4spl/src/features/references.rs :: fn find_vars :: fn find_in_variable
 //@ rewrite string_eq_str vec_extend
 //@ ret r
@@ -127,6 +127,123 @@ pub fn vec_extend(a: &mut Vec<Identifier>, b: Vec<Identifier>)
         ensures
             r@ == occ_expr(*expr, name@), //# find_in_expression::exactly_the_occurrences
         decreases expr, 1nat
+//@end
+
+// ---------- statement level (find_vars::find_in_statement): every statement shape, with the accumulated Reference offsets
+pub open spec fn opt_occ_expr(o: Option<Reference<Expression>>, name: Seq<char>) -> Seq<Identifier> {
+    match o { Some(e) => ids_plus(occ_expr(e.reference, name), e.offset as int), None => Seq::empty() }
+}
+pub open spec fn occ_args(v: Vec<Reference<Expression>>, name: Seq<char>, n: nat) -> Seq<Identifier>
+    decreases n
+{
+    if n == 0 || n > v@.len() { Seq::empty() } else { occ_args(v, name, (n - 1) as nat) + ids_plus(occ_expr(v@[n - 1].reference, name), v@[n - 1].offset as int) }
+}
+pub open spec fn occ_stmt(s: Statement, name: Seq<char>) -> Seq<Identifier>
+    decreases s, 0nat
+{
+    match s {
+        Statement::Assignment(a) => occ_var(a.variable, name) + opt_occ_expr(a.expr, name),
+        Statement::Block(b) => occ_stmts(b.statements, name, b.statements@.len()),
+        Statement::Call(c) => occ_args(c.arguments, name, c.arguments@.len()),
+        Statement::If(i) => opt_occ_expr(i.condition, name)
+            + (match i.if_branch { Some(b) => ids_plus(occ_stmt(b.reference, name), b.offset as int), None => Seq::empty() })
+            + (match i.else_branch { Some(b) => ids_plus(occ_stmt(b.reference, name), b.offset as int), None => Seq::empty() }),
+        Statement::While(w) => opt_occ_expr(w.condition, name)
+            + (match w.statement { Some(b) => ids_plus(occ_stmt(b.reference, name), b.offset as int), None => Seq::empty() }),
+        Statement::Empty(_) => Seq::empty(),
+        Statement::Error(_) => Seq::empty(),
+    }
+}
+pub open spec fn occ_stmts(v: Vec<Reference<Statement>>, name: Seq<char>, n: nat) -> Seq<Identifier>
+    decreases v, n
+{
+    if n == 0 || n > v@.len() { Seq::empty() } else { occ_stmts(v, name, (n - 1) as nat) + ids_plus(occ_stmt(v@[n - 1].reference, name), v@[n - 1].offset as int) }
+}
+pub open spec fn fit_opt_expr(o: Option<Reference<Expression>>, name: Seq<char>) -> bool {
+    match o { Some(e) => offsets_fit_expr(e.reference, name) && ids_fit(occ_expr(e.reference, name), e.offset as int), None => true }
+}
+pub open spec fn fit_stmt(s: Statement, name: Seq<char>) -> bool
+    decreases s, 0nat
+{
+    match s {
+        Statement::Assignment(a) => offsets_fit_var(a.variable, name) && fit_opt_expr(a.expr, name),
+        Statement::Block(b) => fit_stmts(b.statements, name, b.statements@.len()),
+        Statement::Call(c) => forall|i: int| 0 <= i < c.arguments@.len() ==> offsets_fit_expr((#[trigger] c.arguments@[i]).reference, name) && ids_fit(occ_expr(c.arguments@[i].reference, name), c.arguments@[i].offset as int),
+        Statement::If(i) => fit_opt_expr(i.condition, name)
+            && (match i.if_branch { Some(b) => fit_stmt(b.reference, name) && ids_fit(occ_stmt(b.reference, name), b.offset as int), None => true })
+            && (match i.else_branch { Some(b) => fit_stmt(b.reference, name) && ids_fit(occ_stmt(b.reference, name), b.offset as int), None => true }),
+        Statement::While(w) => fit_opt_expr(w.condition, name)
+            && (match w.statement { Some(b) => fit_stmt(b.reference, name) && ids_fit(occ_stmt(b.reference, name), b.offset as int), None => true }),
+        Statement::Empty(_) => true,
+        Statement::Error(_) => true,
+    }
+}
+pub open spec fn fit_stmts(v: Vec<Reference<Statement>>, name: Seq<char>, n: nat) -> bool
+    decreases v, n
+{
+    if n == 0 || n > v@.len() { true } else { fit_stmts(v, name, (n - 1) as nat) && fit_stmt(v@[n - 1].reference, name) && ids_fit(occ_stmt(v@[n - 1].reference, name), v@[n - 1].offset as int) }
+}
+/// concatenation, in order, of g over the first n items
+pub open spec fn flat_ids<T>(items: Seq<T>, g: spec_fn(T) -> Seq<Identifier>, n: nat) -> Seq<Identifier>
+    decreases n
+{
+    if n == 0 || n > items.len() { Seq::empty() } else { flat_ids(items, g, (n - 1) as nat) + g(items[n - 1]) }
+}
+//~assume `xs.iter().flat_map(f).collect()` applies f to every element of xs in order and concatenates the results (std iterator semantics; R8)
+#[verifier::external_body]
+pub fn flat_map_collect<T, F: Fn(&T) -> Vec<Identifier>>(items: &Vec<T>, f: F, Ghost(g): Ghost<spec_fn(T) -> Seq<Identifier>>) -> (r: Vec<Identifier>)
+    requires
+        forall|i: int| 0 <= i < items@.len() ==> call_requires(f, (&#[trigger] items@[i],)),
+        forall|i: int, out: Vec<Identifier>| 0 <= i < items@.len() && #[trigger] call_ensures(f, (&items@[i],), out) ==> out@ == g(items@[i]),
+    ensures r@ == flat_ids(items@, g, items@.len()),
+{ items.iter().flat_map(f).collect() }
+
+pub proof fn lemma_flat_occ_stmts(v: Vec<Reference<Statement>>, name: Seq<char>, g: spec_fn(Reference<Statement>) -> Seq<Identifier>, n: nat)
+    requires n <= v@.len(), forall|s: Reference<Statement>| #[trigger] g(s) == ids_plus(occ_stmt(s.reference, name), s.offset as int),
+    ensures flat_ids(v@, g, n) == occ_stmts(v, name, n), //# lemma_flat_occ_stmts
+    decreases n
+{ if n > 0 { lemma_flat_occ_stmts(v, name, g, (n - 1) as nat); } }
+pub proof fn lemma_flat_occ_args(v: Vec<Reference<Expression>>, name: Seq<char>, g: spec_fn(Reference<Expression>) -> Seq<Identifier>, n: nat)
+    requires n <= v@.len(), forall|s: Reference<Expression>| #[trigger] g(s) == ids_plus(occ_expr(s.reference, name), s.offset as int),
+    ensures flat_ids(v@, g, n) == occ_args(v, name, n), //# lemma_flat_occ_args
+    decreases n
+{ if n > 0 { lemma_flat_occ_args(v, name, g, (n - 1) as nat); } }
+pub proof fn lemma_fit_stmts(v: Vec<Reference<Statement>>, name: Seq<char>, n: nat, i: int)
+    requires fit_stmts(v, name, n), n <= v@.len(), 0 <= i < n,
+    ensures fit_stmt(v@[i].reference, name) && ids_fit(occ_stmt(v@[i].reference, name), v@[i].offset as int), //# lemma_fit_stmts
+    decreases n
+{ if i < n - 1 { lemma_fit_stmts(v, name, (n - 1) as nat, i); } }
+
+//@extract lsp4spl/src/features/references.rs :: fn find_vars :: fn find_in_statement
+//@ rewrite vec_extend flat_map_collect map_or_inline
+//@ ret r
+//@ attr
+    #[verifier::exec_allows_no_decreases_clause]
+//@ sig
+        requires fit_stmt(*stmt, name@),
+        ensures
+            r@ == occ_stmt(*stmt, name@), //# find_in_statement::exactly_the_occurrences_in_every_statement_shape
+//@ before "flat_map_collect(&b.statements"
+{ proof { assert forall|i: int| 0 <= i < b.statements@.len() implies fit_stmt((#[trigger] b.statements@[i]).reference, name@) && ids_fit(occ_stmt(b.statements@[i].reference, name@), b.statements@[i].offset as int) by { lemma_fit_stmts(b.statements, name@, b.statements@.len(), i); } }
+                let r_ = 
+//@ before ",\n            Statement::Call(c)"
+; proof { lemma_flat_occ_stmts(b.statements, name@, |s: Reference<Statement>| ids_plus(occ_stmt(s.reference, name@), s.offset as int), b.statements@.len()); } r_ }
+//@ before "flat_map_collect(&c.arguments"
+{ let r_ = 
+//@ before ",\n            Statement::If(i)"
+; proof { lemma_flat_occ_args(c.arguments, name@, |s: Reference<Expression>| ids_plus(occ_expr(s.reference, name@), s.offset as int), c.arguments@.len()); } r_ }
+//@ closure |stmt| : &Reference<Statement>
+ -> (out: Vec<Identifier>)
+                    requires fit_stmt(stmt.reference, name@) && ids_fit(occ_stmt(stmt.reference, name@), stmt.offset as int),
+                    ensures out@ == ids_plus(occ_stmt(stmt.reference, name@), stmt.offset as int),
+//@ after_closure |stmt|
+, Ghost(|s: Reference<Statement>| ids_plus(occ_stmt(s.reference, name@), s.offset as int))
+//@ closure |expr| : &Reference<Expression>
+ -> (out: Vec<Identifier>)
+                    requires offsets_fit_expr(expr.reference, name@) && ids_fit(occ_expr(expr.reference, name@), expr.offset as int),
+                    ensures out@ == ids_plus(occ_expr(expr.reference, name@), expr.offset as int),
+//@ after_closure |expr|
+, Ghost(|s: Reference<Expression>| ids_plus(occ_expr(s.reference, name@), s.offset as int))
 //@end
 
 pub proof fn witness_refs(id: Identifier) {
